@@ -767,7 +767,11 @@ class FitBase(FileIOMixin, object):
         """The chi2 probability for the current model values."""
         _cost = self.cost_function_value
         if self._cost_function.add_determinant_cost:
-            _cost -= self._nexus.get("total_cov_mat_log_determinant").value
+            # subtract the determinant term that was added by the cost function
+            if self._cost_function.pointwise:
+                _cost -= self._nexus.get("total_error_squared_log_sum").value
+            else:
+                _cost -= self._nexus.get("total_cov_mat_log_determinant").value
         return self._cost_function.chi2_probability(_cost, self.ndf)
 
     @property
